@@ -1,0 +1,80 @@
+//! Child module of `multiqueue` (only with `--cfg multiqueue2_verif`): read-only views of the
+//! queue state for harness oracles, and two state injections that stand for histories too long
+//! to execute symbolically (2^k balanced send/receive pairs; more than 20 retirements).
+#![allow(dead_code)]
+
+use super::*;
+use crate::atomicsignal::AtomicSignal;
+
+pub struct QueueView {
+    pub head: usize,
+    pub tail_cache: usize,
+    pub writers: usize,
+    pub capacity: usize,
+    pub streams: usize,
+    /// sum of all slot pin counts
+    pub pins: usize,
+}
+
+impl<RW: QueueRW<T>, T> MultiQueue<RW, T> {
+    pub fn verif_view(&self) -> QueueView {
+        let mut pins = 0;
+        for i in 0..self.capacity {
+            pins += unsafe { (*self.refs.offset(i)).refcnt.peek() };
+        }
+        QueueView {
+            head: self.head.verif_peek(),
+            tail_cache: self.tail_cache.peek(),
+            writers: self.writers.peek(),
+            capacity: self.capacity as usize,
+            streams: self.tail.verif_stream_count(),
+            pins,
+        }
+    }
+
+    /// The state reached from a fresh queue by `base` balanced send/receive pairs on every stream,
+    /// without executing them: head, cached tail and every stream position advance by `base`
+    /// (mod 2^63); every slot holds the tag of the last lap that wrote it.  Only valid on a queue
+    /// that has never been sent to (slots then hold no payloads, so the tags stay "initial").
+    pub fn verif_origin_shift(&self, base: usize) {
+        let mask = !(1usize << (usize::BITS - 1));
+        self.head.verif_poke(self.head.verif_peek().wrapping_add(base) & mask);
+        self.tail_cache.poke(self.tail_cache.peek().wrapping_add(base) & mask);
+        self.tail.verif_shift_positions(base, mask);
+    }
+
+    pub fn verif_signal(&self) -> &AtomicSignal {
+        &self.manager.signal
+    }
+}
+
+impl<RW: QueueRW<T>, T> InnerSend<RW, T> {
+    pub fn verif_queue(&self) -> &MultiQueue<RW, T> {
+        &self.queue
+    }
+}
+
+impl<RW: QueueRW<T>, T> InnerRecv<RW, T> {
+    pub fn verif_queue(&self) -> &MultiQueue<RW, T> {
+        &self.queue
+    }
+    pub fn verif_pos(&self) -> usize {
+        self.reader.verif_pos()
+    }
+}
+
+impl<RW: QueueRW<T>, T> FutInnerSend<RW, T> {
+    pub fn verif_queue(&self) -> &MultiQueue<RW, T> {
+        &self.writer.queue
+    }
+    /// number of tasks parked on the consumer side / producer side wait lists
+    pub fn verif_parked(&self) -> (usize, usize) {
+        (self.wait.parked.peek().len(), self.prod_wait.parked.peek().len())
+    }
+}
+
+/// The "epoch pending" signal bit is raised by the real memory manager after more than 20
+/// retirements; harnesses whose manager is stubbed raise it directly.
+pub fn raise_epoch_signal<RW: QueueRW<T>, T>(q: &MultiQueue<RW, T>) {
+    q.manager.signal.set_epoch(SeqCst);
+}
